@@ -1,6 +1,7 @@
 CONSTANT MaxLen = 4
 CONSTANT Alphabet = {97,32,12,10,13,36,58,124,61,35,255,128}
 CONSTANT First = {97,32,12,10,13,36,58,124,61,35,255,128,256}
+CONSTANT Second = {97,32,12,10,13,36,58,124,61,35,255,128,256}
 CONSTANT Family = "all"
 INIT Init
 NEXT Next
